@@ -210,6 +210,12 @@ theorem allInv_step (r : Run) (op : Op) (h : AllInv r.stats) : AllInv (step r op
   | reset => simpa [step] using allInv_reset r.stats h
   | enable => simpa [step, Stats.enable, AllInv] using h
   | disable => simpa [step, Stats.disable, AllInv] using h
+  | enter n now => simpa [step] using allInv_startTimer r.stats n now h
+  | exit now =>
+    simp only [step]
+    cases r.cm.getLast? with
+    | none => exact h
+    | some hd => simpa [exitCm] using allInv_stopTimer r.stats hd now none none none false h
 
 theorem allInv_run : ∀ (ops : List Op) (r : Run), AllInv r.stats → AllInv (run r ops).1.stats
   | [], _, h => h
@@ -322,5 +328,23 @@ theorem disabled_inert (s : Stats) (hd : Handle) (n : Str) (now : Int) (a b c : 
     (h : s.enabled = false) :
     s.startTimer n now = (s, .dummy) ∧ s.stopTimer hd now a b c e = (s, .none) := by
   simp [Stats.startTimer, Stats.stopTimer, h]
+
+/-- __exit__ never asks Python to swallow the exception of the with-block -/
+theorem exit_never_suppresses (r : Run) (now : Int) :
+    (step r (.exit now)).2 = .indexError ∨ ∃ res, (step r (.exit now)).2 = .exited false res := by
+  simp only [step]
+  cases r.cm.getLast? with
+  | none => left; rfl
+  | some h => right; exact ⟨_, rfl⟩
+
+/-- `with statistics(n):` entered and left with statistics enabled: counted once (as a non-exception), like
+    start_timer/stop_timer -/
+theorem enter_exit_pair (s : Stats) (n : Str) (t1 t2 : Int) (he : s.enabled = true) :
+    (exitCm (s.startTimer n t1).1 (s.startTimer n t1).2 t2).2.2 = .dt (t2 - t1) ∧
+    (get (exitCm (s.startTimer n t1).1 (s.startTimer n t1).2 t2).1 n).count = (get s n).count + 1 ∧
+    (get (exitCm (s.startTimer n t1).1 (s.startTimer n t1).2 t2).1 n).excCount = (get s n).excCount := by
+  obtain ⟨h1, h2, h3, _⟩ := start_stop_pair s n t1 t2 none none none false he
+  simp only [exitCm]
+  exact ⟨h1, h2, by simpa using h3⟩
 
 end Proofs.Lemmas.Statistics
